@@ -123,6 +123,7 @@ func (h *harness) when(cond func() bool, then func()) {
 }
 
 func (h *harness) poll() {
+	h.w.TrackRoles([][2]string{{"select@hsms/connection_send.go", "asender"}})
 	for i := 0; i < len(h.whens); i++ {
 		wn := h.whens[i]
 		if !wn.done && wn.cond() {
@@ -424,6 +425,16 @@ func (h *harness) endGen(k, n int, c *refhsms.Conn, p genPlan) {
 		w.Fault("sndfull")
 		c.L.SetCap(40)
 		c.L.Stall(false, 0)
+		if k := w.T.Choose("stall", 12); k < 8 {
+			// one writer is withheld for a few milliseconds right after the k-th time a writer releases a
+			// lock: whatever it still does to the socket after that (a late deadline clear) lands on the
+			// next writer's blocked write — which the write timeout must still end
+			for j := 0; j < 3; j++ {
+				w.HoldNth = append(w.HoldNth, &core.NthHold{Prefix: "mu.Unlock", Skip: k + 3*j, D: 5 * time.Millisecond, Label: "writer-after-unlock",
+					Filter: func(g *simhook.G) bool { return g.App || w.Roles[g.ID] == "asender" },
+					OnFire: func(g *simhook.G) { h.markStalled(g.Name) }})
+			}
+		}
 		// make sure the library has something to write: a burst of Linktest.req whose answers fill
 		// the stalled pipe, so a write blocks and the write timeout fires
 		for i := 0; i < 6; i++ {
